@@ -24,6 +24,11 @@ func (s *Sim) Judge(stranded []string) []Finding {
 		add("C26", "caller-stranded-after-close", "after ForceClose %s can make no step and never returns", st)
 		add("C24", "caller-stranded-after-close", "after ForceClose %s can make no step and never returns", st)
 	}
+	s.pmu.Lock()
+	for _, p := range s.Panics {
+		add("C24", "engine-panicked", "panic inside the engine: %s", p)
+	}
+	s.pmu.Unlock()
 	for _, p := range s.Problems {
 		add("*", "harness-problem", "%s", p)
 	}
@@ -165,11 +170,13 @@ func (s *Sim) Judge(stranded []string) []Finding {
 
 		// ---- C26 ----
 		rp, rt := pool.VerifErrRetryableOnNewConn(err), telegram.VerifErrRetryableOnNewConn(err)
+		if (rp || rt) && ret == RClosedAcked && (!s.Stepped || f.ackIdx >= 0) {
+			add("C26", "acked-but-retryable", "call %d (msg id %d) was acknowledged, then the engine was force-closed; Do returned %v, which errRetryableOnNewConn (pool=%v, telegram=%v) classifies as safe to resend on a new connection: the server would execute the request twice", c.idx, c.plan.ID, err, rp, rt)
+		} else if want := ret == RClosedRetryable || ret == RRejected; rp != want || rt != want {
+			add("C26", "classification-mismatch", "call %d returned %v (%s): errRetryableOnNewConn pool=%v telegram=%v, expected %v", c.idx, err, RetName[ret], rp, rt, want)
+		}
 		if rp != rt {
 			add("C26", "classification-functions-disagree", "pool says %v, telegram says %v for %v", rp, rt, err)
-		}
-		if rp != (ret == RClosedRetryable || ret == RRejected) {
-			add("C26", "classification-mismatch", "call %d returned %v (%s): errRetryableOnNewConn=%v", c.idx, err, RetName[ret], rp)
 		}
 		if ret == RClosedRetryable {
 			if f.ackIdx >= 0 && f.leftLoop >= 0 && f.ackIdx < f.leftLoop {
